@@ -265,11 +265,17 @@ func (g *qqGen) template(depth int) MalType {
 	n := r.intn(4)
 	items := []MalType{}
 	for i := 0; i < n; i++ {
-		switch r.intn(5) {
-		case 0:
+		switch r.intn(12) {
+		case 0, 1:
 			items = append(items, call1("splice-unquote", g.spliced()))
-		case 1:
+		case 2, 3:
 			items = append(items, call1("unquote", g.unquoted()))
+		case 4:
+			// VECTORS spelled like unquote forms are literal data (only lists are unquote forms)
+			items = append(items, vc(sy(r.pick([]string{"splice-unquote", "unquote"})), sy(r.pick([]string{"ys", "x", "vs"}))))
+		case 5:
+			// unquote forms with missing / surplus operands
+			items = append(items, []MalType{ls(sy("unquote")), ls(sy("splice-unquote")), ls(sy("unquote"), sy("x"), 99), ls(sy("splice-unquote"), sy("ys"), 99)}[r.intn(4)])
 		default:
 			items = append(items, g.template(depth-1))
 		}
@@ -679,7 +685,7 @@ func init() {
 		forms := ast.(List).Val
 		callForm := forms[len(forms)-1]
 		alt := List{Val: append(append([]MalType{}, forms[:len(forms)-1]...),
-			ls(sy("eval"), ls(sy("macroexpand"), call1("quote", callForm))))}
+			ls(sy("eval"), ls(sy("macroexpand"), callForm)))} // macroexpand is a special form: its operand is not evaluated
 		obs2 := runProgram(alt, -1, "-", nil)
 		if resultPart(obs) != resultPart(obs2) || field(obs, "trace") != field(obs2, "trace") {
 			return "macro call differs from evaluating its macroexpansion: call ⇒ " + resultPart(obs) + " " + field(obs, "trace") +
@@ -687,7 +693,7 @@ func init() {
 		}
 		// the expansion's head is no longer a macro
 		chk := List{Val: append(append([]MalType{}, forms[:len(forms)-1]...),
-			ls(sy("let"), vc(sy("ex"), ls(sy("macroexpand"), call1("quote", callForm))),
+			ls(sy("let"), vc(sy("ex"), ls(sy("macroexpand"), callForm)),
 				ls(sy("if"), call1("list?", sy("ex")), ls(sy("if"), call1("symbol?", call1("first", sy("ex"))),
 					ls(sy("try"), call1("macro?", call1("eval", call1("first", sy("ex")))), ls(sy("catch"), sy("e"), false)), false), false)))}
 		obs3 := runProgram(chk, -1, "-", nil)
